@@ -51,6 +51,12 @@ def check_inv(ctx, impl, st, n, hist, site):
     if bad:
         ctx.fail(site, 'tableau invariant broken: ' + bad, dict(N=n, history=hist, rows=rows, r=int(st.r)))
         return False
+    rawp = [int(v) for v in np.asarray(st.ps)]
+    if any(v < 0 or v > 3 for v in rawp):
+        # C05_reachable_phase_range: no operation of the model leaves {0,1,2,3}; printing, tokenizing and the overlap kernels read
+        # the indicator unreduced
+        ctx.fail(site, 'a phase indicator of the tableau left {0,1,2,3}: %s' % rawp, dict(N=n, history=hist, rows=rows, r=int(st.r), raw_ps=rawp))
+        return False
     return True
 
 
